@@ -236,7 +236,12 @@ func runC10(s *kernel.Sim, prop string, focus ...string) {
 	shareWallet := s.Choose("sharewallet", 3) == 0
 	s.Go("director", func() {
 		for _, a := range w.Actors {
-			d.Connect(a, "", "", false)
+			payout := ""
+			if firstTouch && a.IsHost && d.choose("setuppayout", 2) == 1 {
+				// registered with a payout address; a re-registration in the burst carries none
+				payout = w.Wallets[1].Addr
+			}
+			d.Connect(a, payout, "", false)
 		}
 		for _, a := range w.Actors {
 			if a.IsHost {
@@ -582,6 +587,23 @@ func runC10(s *kernel.Sim, prop string, focus ...string) {
 			}
 		}
 	}
+	if (prop == "C10" || prop == "C11") && !s.Violated() {
+		// node records: only a registration writes payout, kind, host flag and URI; every re-registration of the
+		// burst carries payout "" - whatever the order, a host that re-registered successfully ends with that
+		for _, bt := range tasks {
+			if bt.kind != "hostconnect" || !bt.ok {
+				continue
+			}
+			n, err := w.Inner.GetNode(store.NodeID(bt.a.ID))
+			if err != nil {
+				continue
+			}
+			if n.Payout != "" || !n.IsHost {
+				s.Violate("serialisable", "a node record is not what any one-at-a-time order of the acknowledged requests gives ("+cfg.Driver+" driver)", "%s re-registered in the burst with payout \"\" (acknowledged); its record now has payout %q host=%v - a value from before the re-registration; errors: %v", bt.a.Name, n.Payout, n.IsHost, errs)
+				break
+			}
+		}
+	}
 	s.ProbeN("c10.burst_tasks", nTasks)
 }
 
@@ -745,7 +767,7 @@ func runC07Race(s *kernel.Sim) {
 // ------------------------------------------------------------------ C09 closes racing requests
 
 func runC09Race(s *kernel.Sim) {
-	cfg := WorldCfg{Driver: "memory", Hosts: 1 + s.Choose("hosts", 3), Clients: 1 + s.Choose("clients", 2), Wallets: 0}
+	cfg := WorldCfg{Driver: []string{"memory", "memory", "badger"}[s.Choose("driver", 3)], Hosts: 1 + s.Choose("hosts", 3), Clients: 1 + s.Choose("clients", 2), Wallets: 0}
 	cfg.Interval, cfg.Price = time.Minute, big.NewInt(1000)
 	cfg.PostWrite = s.Choose("postwrite", 2) * 2
 	w := NewWorld(s, cfg)
@@ -769,6 +791,11 @@ func runC09Race(s *kernel.Sim) {
 	s.SetYield("postwrite", cfg.PostWrite)
 	s.SetYield("op", 3)
 	s.SetYield("hostsvc", 2)
+	if s.Choose("storeyields", 2) == 1 {
+		// registrations, closes and peer requests can also be split at every store call they make
+		s.SetYield("store", 2)
+		s.SetYield("storeret", 1)
+	}
 	var mu sync.Mutex
 	latest := map[string]*Conn{} // per host: the connection of its last completed registration
 	for _, a := range w.Actors {
@@ -798,7 +825,7 @@ func runC09Race(s *kernel.Sim) {
 		rounds := s.Choose("hrounds", 4)
 		plan := make([]int, rounds)
 		for i := range plan {
-			plan[i] = s.Choose("hplan", 3)
+			plan[i] = s.Choose("hplan", 4)
 		}
 		s.Go("life:"+a.Name, func() {
 			cur := a.Conn
@@ -819,6 +846,22 @@ func runC09Race(s *kernel.Sim) {
 					s.Gate("life:" + a.Name)
 					w.CloseConn(cur)
 					s.TaskLog("life:"+a.Name, "close old %s", cur.Name)
+					cur = nc
+				case 3: // the link drops and the host redials at once: the pool may still be cleaning up the old connection
+					w.CloseConn(cur)
+					s.TaskLog("life:"+a.Name, "link %s drops", cur.Name)
+					nc := w.Dial(a)
+					ctx, cancel := context.WithCancel(s.Ctx)
+					_, err := nc.RP.Connect(ctx, a.ConnectReq("", ""))
+					cancel()
+					mu.Lock()
+					if err == nil {
+						latest[a.ID] = nc
+					} else {
+						latest[a.ID] = nil
+					}
+					mu.Unlock()
+					s.TaskLog("life:"+a.Name, "redial on %s -> %v", nc.Name, err)
 					cur = nc
 				default: // close the current connection (host goes away)
 					w.CloseConn(cur)
